@@ -22,6 +22,12 @@ pub trait Dom: num::Float + std::fmt::Debug + Send + 'static {
     fn term_id(self) -> u64;
     /// if the value is structurally `num / sqrt(rad)` (a term the real code built), its two parts
     fn ratio_sqrt_parts(self) -> Option<(Self, Self)> { None }
+    /// an input assumed to lie in [-1,1]
+    fn input_unit(name: &str) -> Self { let x = Self::input(name); Self::assume(Cond::And(vec![Cond::Le(x, Self::one()), Cond::Le(-Self::one(), x)])); x }
+    /// |x| <= bound, for x a linear form over `input_unit` variables (see Ctx::oblige_abs_le_boxed)
+    fn oblige_abs_le_boxed(label: &str, x: Self, bound: f64) { Self::oblige(label, Cond::And(vec![Cond::Le(x, Self::c(bound)), Cond::Le(-Self::c(bound), x)])) }
+    /// if the value is structurally `num / den`, its two parts
+    fn ratio_parts(self) -> Option<(Self, Self)> { None }
 }
 
 impl Dom for Sym {
@@ -44,6 +50,14 @@ impl Dom for Sym {
         if let sym::Node::Div(a, b) = sym::node_of(self) { if let sym::Node::Sqrt(c) = sym::node_of(Sym(b)) { return Some((Sym(a), Sym(c))); } }
         None
     }
+    fn input_unit(name: &str) -> Sym {
+        let x = Sym::input(name);
+        if sym::with(|c| c.mode == sym::Mode::Symbolic) { sym::with(|c| c.declare_unit_box(x.0)); }
+        else { let one = <Sym as num::One>::one(); Sym::assume(Cond::And(vec![Cond::Le(x, one), Cond::Le(-one, x)])); }
+        x
+    }
+    fn oblige_abs_le_boxed(label: &str, x: Sym, bound: f64) { sym::with(|c| c.oblige_abs_le_boxed(label, x, sym::f64_rat(bound))) }
+    fn ratio_parts(self) -> Option<(Sym, Sym)> { if let sym::Node::Div(a, b) = sym::node_of(self) { Some((Sym(a), Sym(b))) } else { None } }
 }
 
 #[derive(Default)]
